@@ -16,6 +16,8 @@ What is a theorem here, for ALL inputs, is the logic the generated code rests on
   `collect_fallthrough_edges`, and the straight-line special case reach exactly the configuration (block, predecessor
   arm, state / returned value / panic) that small-step execution of the block graph reaches (`Model/RustGen.lean`:
   `encode`, `runBody`, `runCfg`).
+* `C18_dispatch_loop_terminates` — without back edges (`forward`, checked on every real MIR function) the emitted loop
+  returns or panics within `length + 1` iterations, whatever the instructions do.
 * `C18_fallthrough_arm_is_innermost` — in the block layout mirgen produces (arms properly nested, outer branch
   visited before inner; the executable predicate `nested`, evaluated on the MIR of every generated program by the
   check) the arm that `runCfg` lets a terminator-less block fall out of is the innermost enclosing `if`/`match` arm.
@@ -84,6 +86,14 @@ theorem C18_dispatch_loop_eq_cfg {σ ρ : Type} (S : Sem σ ρ) (bs : Cfg) (body
       | succ n =>
         simp only [runBody, Gen.rustLoopInitBb, Gen.rustLoopInitPred]
         exact runLoop_eq_runCfg S bs hphi (n + 1) 0 0 s
+
+/-- MIR has no back edges (`forward`, evaluated on the MIR of every generated function by the check): the emitted `loop`
+cannot spin — after at most `length + 1` iterations the generated function has returned or panicked -/
+theorem C18_dispatch_loop_terminates {σ ρ : Type} (S : Sem σ ρ) (bs : Cfg) (body : Body)
+    (h : encode bs = some body) (hf : forward bs = true) (s : σ) (bb p : Nat) (s' : σ) :
+    runBody S body (bs.length + 1) s ≠ .more bb p s' := by
+  rw [C18_dispatch_loop_eq_cfg S bs body h]
+  exact runCfg_terminates S bs hf bs.length 0 (by omega) 0 s bb p s'
 
 /-- in a properly nested layout the arm in force at a block (the last one the range fill visited) lies inside every
 other arm that contains the block: it is the innermost enclosing arm -/
@@ -207,7 +217,7 @@ def exNested : Cfg :=
    [.op 5],
    [.phi 20 10 13, .ret 20]]
 
-example : nested exNested = true ∧ (encode exNested).isSome = true ∧
+example : nested exNested = true ∧ forward exNested = true ∧ (encode exNested).isSome = true ∧
     fallEdges exNested = [none, some (6, 1), some (4, 2), some (4, 3), some (6, 1), some (6, 5), none] ∧
     blockPreds exNested = [[], [0], [1], [1], [2, 3], [0], [1, 5]] := by
   decide +kernel
